@@ -495,3 +495,57 @@ _c02_base = contracts
 
 def contracts():
     return _c02_base() + [resolve_ref_frame_contract()]
+
+
+# ======================================================================================
+# class-level route: ParameterizedMetaclass.__setattr__ (copy-on-write of an inherited Parameter)
+# ======================================================================================
+CLASS_SET_REPLAY = '''import sys, os
+sys.path.insert(0, os.environ.get('PYVC_REPO', '/repo'))
+import param
+bad = []
+class A(param.Parameterized):
+    x = param.Number(1, bounds=(0, 10))
+    r = param.Range((0, 1))
+    s = param.Selector(objects=[1, 2])
+for label, attempt in (('B.x = 99', lambda B: setattr(B, 'x', 99)), ('B.r = 5', lambda B: setattr(B, 'r', 5)),
+                       ('B.param.update(x=77)', lambda B: B.param.update(x=77)), ('B.s = 3', lambda B: setattr(B, 's', 3))):
+    B = type('B', (A,), {})
+    try:
+        attempt(B)
+        bad.append('%s was accepted' % label)
+        continue
+    except (ValueError, TypeError):
+        pass
+    own = [n for n in ('x', 'r', 's') if n in B.__dict__]
+    if own:
+        bad.append('%s was rejected, but B now has its own Parameter(s) %r' % (label, own))
+    A.x = 2.5
+    if B.x != 2.5:
+        bad.append('%s was rejected; afterwards A.x = 2.5 but B.x is still %r' % (label, B.x))
+    A.x = 1
+if bad:
+    print('REPRODUCED: C02 a rejected class-level assignment is not without effect:')
+    for b in bad:
+        print('  ', b)
+    sys.exit(1)
+print('NOT-REPRODUCED'); sys.exit(0)
+'''
+
+
+def class_set_contract():
+    from contracts import c13 as _c13
+    c = _c13.metaclass_setattr_contract()
+    c.prop = "C02"
+    c.clause_prefixes = ["C02/"]
+    c.name = "ParameterizedMetaclass.__setattr__[rejected class-level assignment]"
+    c.static_replay = CLASS_SET_REPLAY
+    c.static_witness = "B(A) without own Parameter; B.x = <rejected value>; then A.x = <new value>"
+    return c
+
+
+_c02_base2 = contracts
+
+
+def contracts():
+    return _c02_base2() + [class_set_contract()]
